@@ -7,7 +7,7 @@
 # "VIOLATION property=<id> replay=<path>" is printed); 2 inconclusive / infrastructure
 # (build failure, watchdog, harness defect) — never reported as a violation.
 set -u
-VERIF=/verif
+VERIF="${FQV_VERIF_DIR:-/verif}"
 cd "$VERIF/harness" || exit 2
 export CARGO_NET_OFFLINE=true
 export CARGO_TERM_COLOR=never
